@@ -27,6 +27,8 @@ for mid in ids:
     try:
         # from /repo's HEAD, not its working tree: a seeded change being tried in /repo at this moment must not leak in
         subprocess.run("git -C /repo archive HEAD | tar -x -C %s" % scratch, shell=True, check=True)
+        if os.path.exists("/repo/Cargo.lock"):
+            shutil.copy("/repo/Cargo.lock", scratch + "/Cargo.lock")     # untracked in /repo: same dependency versions
         a = subprocess.run(["git", "apply", "--whitespace=nowarn", VERIF + "/seeded/%s/patch.diff" % mid], cwd=scratch)
         if a.returncode != 0:
             M[mid] = {"_status": "patch does not apply"}
